@@ -200,6 +200,26 @@ func TestVerifC07(t *testing.T) {
 				}
 				open(a, c, openProbe{c.nonce, sealed, c.aad, "authentic"}, c.pt, true)
 				n := 1
+				// the authentic message opened INTO a caller's buffer: a prefix that must survive, room that is exactly
+				// enough / ample / missing; the plaintext comes back behind the prefix
+				if i%2 == 0 {
+					pre := []int{1, 5, 16, 33}[(i/8)%4]
+					room := []int{len(c.pt), len(c.pt) + 41, len(c.pt) / 2, 0}[(i/2)%4]
+					dst := make([]byte, pre, pre+room)
+					for k := range dst {
+						dst[k] = byte(0xC0 + k)
+					}
+					keep := append([]byte{}, dst...)
+					var got []byte
+					var oerr error
+					p, msg, _, _ := hk.Try(func() { got, oerr = a.Open(dst, c.nonce, sealed, c.aad) })
+					if p || oerr != nil || len(got) != pre+len(c.pt) || !bytes.Equal(got[:pre], keep) || !bytes.Equal(got[pre:], c.pt) {
+						dd := c.detail()
+						dd["panic"], dd["err"], dd["dst_len"], dd["dst_cap"], dd["returned"] = msg, fmt.Sprint(oerr), pre, pre+room, clip(got)
+						r.Violation(fmt.Sprintf("authentic-message-not-returned-behind-dst-prefix:%s", pn), dd)
+					}
+					n++
+				}
 				probes := []openProbe{}
 				if len(sealed) > 0 {
 					probes = append(probes, openProbe{c.nonce, flipBit(sealed, lr.Intn(len(sealed)*8)), c.aad, "flip-anywhere"})
@@ -283,6 +303,40 @@ func TestVerifC07(t *testing.T) {
 				open(a, c, openProbe{c.nonce, sealed, c.aad, "authentic-reopened"}, c.pt, true)
 				r.EvalN(pn+"|"+c.class(), n+1)
 			})
+
+			// (1b) ONE AEAD object serving many goroutines that open (authentic and forged messages mixed): every
+			// authentic message must come back, every forgery must be refused - an AEAD is not a one-caller object
+			{
+				key := rng.Bytes(16)
+				g := ref.NewGCM(key)
+				a, err := newAEAD(key, 12, 16)
+				if err == nil {
+					type msgT struct{ nonce, aad, pt, sealed, bad []byte }
+					var msgs []msgT
+					for _, l := range []int{0, 1, 16, 31, 64, 200, 300, 1000} {
+						m := msgT{nonce: rng.Bytes(12), aad: rng.Bytes(rng.Intn(40)), pt: rng.Bytes(l)}
+						m.sealed = g.Seal(m.nonce, m.pt, m.aad, 16)
+						m.bad = flipBit(m.sealed, rng.Intn(len(m.sealed)*8))
+						msgs = append(msgs, m)
+					}
+					nOps := hk.N(6000, 60000)
+					hk.Parallel(nOps, func(i int) {
+						m := msgs[i%len(msgs)]
+						if i%3 == 2 {
+							pt, oerr := a.Open(nil, m.nonce, m.bad, m.aad)
+							if oerr == nil || len(pt) != 0 {
+								r.Violation("forgery-accepted-by-shared-aead:"+pn, hk.D{"key": hk.Hex(key), "len": len(m.pt)})
+							}
+							return
+						}
+						pt, oerr := a.Open(nil, m.nonce, m.sealed, m.aad)
+						if oerr != nil || !bytes.Equal(pt, m.pt) {
+							r.Violation("authentic-message-rejected-by-shared-aead:"+pn, hk.D{"key": hk.Hex(key), "len": len(m.pt), "err": fmt.Sprint(oerr)})
+						}
+					})
+					r.EvalN("shared-aead-concurrent-opens:"+pn, nOps)
+				}
+			}
 
 			// (2) full mutation sets
 			for mi, c := range full {
